@@ -31,6 +31,31 @@ pub fn book_of(a: &[&str]) -> Result<Spreadsheet, String> {
             let mut rng = Rng::new(seed ^ 0x7a67);
             guard(|| xml_book(&mut rng)).map_err(|_| "generator panicked".to_string())
         }
+        "edge" => {
+            // witnesses of `C02_sheet_names_case_fails`: sheet titles that differ only by case (refused by `new_sheet`
+            // since fix 95713cc), and a duplicate title produced through `Worksheet::set_name`, which checks nothing
+            let mut book = umya_spreadsheet::new_file_empty_worksheet();
+            book.new_sheet("A").map_err(|e| e.to_string())?;
+            match a[3] {
+                "dupcase" => {
+                    if book.new_sheet("a").is_ok() {
+                        return Ok(book);
+                    }
+                    book.new_sheet("b").map_err(|e| e.to_string())?;
+                }
+                _ => {
+                    book.new_sheet("B").map_err(|e| e.to_string())?;
+                    book.get_sheet_mut(&1).unwrap().set_name("A");
+                }
+            }
+            book.get_sheet_mut(&0).unwrap().get_cell_mut((1u32, 1u32)).set_value_string("x");
+            Ok(book)
+        }
+        "sgen" => {
+            let seed: u64 = a[3].parse().map_err(|_| "seed")?;
+            let mut rng = Rng::new(seed);
+            guard(|| gen_sheet_book(&mut rng)).map_err(|_| "generator panicked".to_string())
+        }
         "file" => {
             let path = format!("{}/{}", corpus_dir(), a[3]);
             guard(|| umya_spreadsheet::reader::xlsx::read(std::path::Path::new(&path))).map_err(|_| "read panicked".to_string())?.map_err(|e| format!("{:?}", e))
@@ -201,6 +226,167 @@ fn model_dump(book: &Spreadsheet) -> String {
         .join("|")
 }
 
+/// Workbooks for the sheet / workbook bridge (`c02 sheetbridge`): sheets without cells, rows that carry only a
+/// style / height / hidden flag, rows whose cells all are blank, at least three hyperlinks per linked sheet mixing
+/// external, internal, the same URL twice, tooltips and a tooltip-only link, several merged ranges, hidden sheets,
+/// a sheet removed and another one added afterwards, defined names (workbook and sheet scope) whose address
+/// quotes the sheet name.
+pub fn gen_sheet_book(rng: &mut Rng) -> Spreadsheet {
+    use umya_spreadsheet::helper::coordinate::coordinate_from_index;
+    use umya_spreadsheet::structs::{DefinedName, Hyperlink, SheetStateValues};
+    let mut book = umya_spreadsheet::new_file_empty_worksheet();
+    let n_sheets = rng.range(1, 4) as usize;
+    let mut names: Vec<String> = vec![];
+    for _ in 0..n_sheets {
+        let n = wb::sheet_name(rng, &names);
+        book.new_sheet(n.clone()).unwrap();
+        names.push(n);
+    }
+    if rng.chance(1, 2) {
+        // remove a sheet (any position) and add a new one: ids and part numbers follow the positions
+        let n = wb::sheet_name(rng, &names);
+        book.new_sheet(n.clone()).unwrap();
+        names.push(n);
+        let victim = rng.below(names.len() as u64) as usize;
+        book.get_sheet_mut(&victim).unwrap().get_cell_mut((1u32, 1u32)).set_value_string("gone");
+        book.remove_sheet(victim).unwrap();
+        names.remove(victim);
+        let n = wb::sheet_name(rng, &names);
+        book.new_sheet(n.clone()).unwrap();
+        names.push(n);
+    }
+    let n_sheets = names.len();
+    for si in 0..n_sheets {
+        let ws = book.get_sheet_mut(&si).unwrap();
+        let empty = rng.chance(1, 5);
+        if !empty {
+            for _ in 0..rng.range(1, 14) {
+                let (c, r) = if rng.chance(1, 12) { (*rng.pick(&[1u32, 16384]), *rng.pick(&[1u32, 1048576])) } else { (rng.range(1, 6) as u32, rng.range(1, 9) as u32) };
+                let cell = ws.get_cell_mut((c, r));
+                match rng.below(6) {
+                    0 => { cell.set_value_string(wb::rand_text(rng, wb::TEXT_ALPHABET, 1, 8)); }
+                    1 => { cell.set_value_number(rng.range(0, 5000) as f64 / 4.0); }
+                    2 => { cell.set_value_bool(rng.chance(1, 2)); }
+                    3 => { cell.set_formula("A1&\"<x>\""); cell.set_formula_result_default("r&"); }
+                    4 => { cell.get_style_mut().set_background_color("FF00FF00"); }
+                    _ => {} // blank, unstyled: the row gets spans but no <c>
+                }
+            }
+        }
+        // rows that carry only attributes
+        for _ in 0..rng.below(4) {
+            let r = rng.range(1, 30) as u32;
+            let row = ws.get_row_dimension_mut(&r);
+            match rng.below(4) {
+                0 => { row.set_height(rng.range(10, 40) as f64 + 0.5); }
+                1 => { row.set_hidden(true); }
+                2 => { row.get_style_mut().set_background_color("FFFFFF00"); }
+                _ => { row.set_height(18.0); row.get_style_mut().get_font_mut().set_bold(true); row.set_hidden(rng.chance(1, 2)); }
+            }
+        }
+        // hyperlinks: 0 or 3..7 on distinct cells
+        if rng.chance(3, 4) {
+            let k = rng.range(3, 7);
+            let dup = format!("https://example.com/dup?x=1&y={}", rng.below(10));
+            let mut used: Vec<(u32, u32)> = vec![];
+            for j in 0..k {
+                let (c, r) = loop {
+                    let p = (rng.range(1, 12) as u32, rng.range(1, 12) as u32);
+                    if !used.contains(&p) { break p; }
+                };
+                used.push((c, r));
+                let mut h = Hyperlink::default();
+                match if j < 4 { j } else { rng.below(5) } {
+                    0 => { h.set_url(dup.clone()); }
+                    1 => { h.set_url(format!("{}!B{}", wb::quote_sheet(&names[rng.below(names.len() as u64) as usize]), rng.range(1, 9))); h.set_location(true); }
+                    2 => { h.set_url(dup.clone()); h.set_tooltip(wb::rand_text(rng, "tip &<>\"'", 1, 6)); }
+                    3 => { h.set_tooltip("only a tooltip"); }
+                    _ => { h.set_url(format!("mailto:a{}@b.c?subject=<{}>", rng.below(9), j)); }
+                }
+                if rng.chance(1, 4) { h.set_tooltip(wb::rand_text(rng, "tip &<>\"'", 1, 6)); }
+                ws.get_cell_mut((c, r)).set_hyperlink(h);
+            }
+        }
+        // merged ranges
+        let mut row = 40;
+        for _ in 0..rng.below(5) {
+            let h = rng.range(0, 2) as u32;
+            let c = rng.range(1, 5) as u32;
+            ws.add_merge_cells(format!("{}:{}", coordinate_from_index(&c, &row), coordinate_from_index(&(c + rng.range(1, 3) as u32), &(row + h))));
+            row += h + 2;
+        }
+        if rng.chance(1, 3) {
+            ws.set_state(if rng.chance(1, 2) { SheetStateValues::Hidden } else { SheetStateValues::VeryHidden });
+        }
+        if rng.chance(1, 2) {
+            let addr = format!("{}!$A$1:$B${}", wb::quote_sheet(&names[si]), rng.range(1, 9));
+            let _ = ws.add_defined_name(format!("L{}_{}", si, rng.below(100)), addr);
+        }
+        if rng.chance(1, 3) {
+            let mut c = umya_spreadsheet::structs::Comment::default();
+            c.new_comment((2u32, 2u32));
+            c.set_text_string("note");
+            ws.add_comments(c);
+        }
+    }
+    // at least one visible sheet
+    if (0..n_sheets).all(|i| !matches!(book.get_sheet(&i).unwrap().get_state(), SheetStateValues::Visible)) {
+        book.get_sheet_mut(&0).unwrap().set_state(SheetStateValues::Visible);
+    }
+    for _ in 0..rng.below(3) {
+        let mut d = DefinedName::default();
+        let target = names[rng.below(names.len() as u64) as usize].clone();
+        d.set_address(format!("{}!$C${}", wb::quote_sheet(&target), rng.range(1, 20)));
+        let addr = d.get_address();
+        let _ = book.get_sheet_mut(&0).unwrap().add_defined_name(format!("G{}", rng.below(1000)), addr);
+    }
+    book.set_active_sheet(0);
+    book
+}
+
+/// the in-memory workbook for `c02 sheetbridge`: per sheet the row table, merged ranges and hyperlinks; the sheet
+/// list and the defined names (the cells travel as `model=` in the format of `model_dump`)
+fn sheet_dump(book: &Spreadsheet) -> String {
+    use umya_spreadsheet::helper::coordinate::coordinate_from_index;
+    let n = book.get_sheet_count();
+    let opt = |v: Vec<String>| if v.is_empty() { "~".to_string() } else { v.join(",") };
+    let mut rows = vec![];
+    let mut merges = vec![];
+    let mut links = vec![];
+    let mut sheets = vec![];
+    let mut names = vec![];
+    let dn = |d: &umya_spreadsheet::structs::DefinedName| format!("{}:{}:{}", hex(d.get_name()), if d.has_local_sheet_id() { d.get_local_sheet_id().to_string() } else { "~".into() }, hex(&d.get_address()));
+    for d in book.get_defined_names() {
+        names.push(dn(d));
+    }
+    for i in 0..n {
+        let ws = book.get_sheet(&i).unwrap();
+        let mut rs: Vec<(u32, String)> = ws
+            .get_row_dimensions()
+            .iter()
+            .map(|r| {
+                let h = *r.get_height();
+                (*r.get_row_num(), format!("{}:{}:{}:{}", r.get_row_num(), if h != 0f64 { hex(&format!("{}", h)) } else { "~".into() }, if *r.get_hidden() { 1 } else { 0 }, if r.get_style() != &Style::default() { 1 } else { 0 }))
+            })
+            .collect();
+        rs.sort_by_key(|p| p.0);
+        rows.push(opt(rs.into_iter().map(|p| p.1).collect()));
+        merges.push(opt(ws.get_merge_cells().iter().map(|m| hex(&m.get_range())).collect()));
+        let mut ls = vec![];
+        for c in ws.get_cell_collection_sorted() {
+            if let Some(h) = c.get_hyperlink() {
+                ls.push(format!("{}:{}:{}:{}", hex(&coordinate_from_index(c.get_coordinate().get_col_num(), c.get_coordinate().get_row_num())), if *h.get_location() { 1 } else { 0 }, hex(h.get_url()), hex(h.get_tooltip())));
+            }
+        }
+        links.push(opt(ls));
+        sheets.push(format!("{}:{}", hex(ws.get_name()), match ws.get_state() { umya_spreadsheet::structs::SheetStateValues::Hidden => "hidden", umya_spreadsheet::structs::SheetStateValues::VeryHidden => "veryHidden", _ => "visible" }));
+        for d in ws.get_defined_names() {
+            names.push(dn(d));
+        }
+    }
+    format!("rows={} merges={} links={} model={} wb={} names={}", rows.join("|"), merges.join("|"), links.join("|"), model_dump(book), sheets.join("|"), opt(names))
+}
+
 pub fn run_case(out: &mut Out, header: &str) {
     let a: Vec<&str> = header.split(' ').collect();
     out.begin(header);
@@ -310,13 +496,41 @@ pub fn run_case(out: &mut Out, header: &str) {
     // the claim is that the driver finds the rendering of the facts equal to what its XML reader parsed
     match guard(|| crate::c01::package_facts(&bytes, book.get_sheet_count())) {
         Ok(Ok(facts)) => {
-            let model = if a[2] == "gen" || a[2] == "xml" { guard(|| model_dump(&book)).unwrap_or("~".into()) } else { "~".to_string() };
+            let model = if a[2] == "gen" || a[2] == "xml" || a[2] == "sgen" { guard(|| model_dump(&book)).unwrap_or("~".into()) } else { "~".to_string() };
             out.count(if model == "~" { "bridge.facts-only" } else { "bridge.with-model" });
             let line = format!("c02 bridge {} model={}", facts, model);
             out.begin(&line);
             out.end(&line, "ok", true);
         }
         _ => out.count("bridge.skipped-scanner"),
+    }
+    // the sheet / workbook bridge (theorems C02_sheet_decodes, C02_merges_decode, C02_hyperlinks_decode, C02_book_sheets_decode):
+    // the in-memory rows, cells, merged ranges, hyperlinks, sheet list and defined names; the claim is that the driver
+    // finds the trees its writer model renders equal to what its XML reader parsed from the real parts
+    if a[2] == "gen" || a[2] == "sgen" {
+        if let Ok(d) = guard(|| sheet_dump(&book)) {
+            let line = format!("c02 sheetbridge {}", d);
+            out.begin(&line);
+            out.count("sheetbridge");
+            out.count_n("sheetbridge.el.sheet", book.get_sheet_count() as u64);
+            out.count_n("sheetbridge.el.definedName", (book.get_defined_names().len() + (0..book.get_sheet_count()).map(|i| book.get_sheet(&i).unwrap().get_defined_names().len()).sum::<usize>()) as u64);
+            for i in 0..book.get_sheet_count() {
+                let ws = book.get_sheet(&i).unwrap();
+                out.count_n("sheetbridge.el.row", ws.get_row_dimensions().len() as u64);
+                out.count_n("sheetbridge.el.cell", ws.get_cell_collection_sorted().len() as u64);
+                out.count_n("sheetbridge.el.mergeCell", ws.get_merge_cells().len() as u64);
+                out.count_n("sheetbridge.el.hyperlink", ws.get_cell_collection_sorted().iter().filter(|c| c.get_hyperlink().is_some()).count() as u64);
+                if !matches!(ws.get_state(), umya_spreadsheet::structs::SheetStateValues::Visible) { out.count("sheetbridge.sheet.hidden"); }
+                let nl = ws.get_cell_collection_sorted().iter().filter(|c| c.get_hyperlink().is_some()).count();
+                out.count(if ws.get_cell_collection_sorted().is_empty() { "sheetbridge.sheet.no-cells" } else { "sheetbridge.sheet.with-cells" });
+                out.count(match nl { 0 => "sheetbridge.links.0", 1..=2 => "sheetbridge.links.1-2", _ => "sheetbridge.links.3+" });
+                out.count(match ws.get_merge_cells().len() { 0 => "sheetbridge.merges.0", 1 => "sheetbridge.merges.1", _ => "sheetbridge.merges.2+" });
+                if ws.get_row_dimensions().iter().any(|r| ws.get_collection_by_row(r.get_row_num()).is_empty()) {
+                    out.count("sheetbridge.sheet.row-without-cells");
+                }
+            }
+            out.end(&line, "ok", true);
+        }
     }
 }
 
@@ -331,6 +545,13 @@ pub fn gen(tier: Tier, seed: u64) -> Vec<String> {
         if tier == Tier::Thorough || i % 4 == 0 {
             v.push(format!("c02 reset file {} {}", f, if i % 2 == 1 { "light" } else { "std" }));
         }
+    }
+    v.push("c02 reset edge dupcase std".to_string());
+    v.push("c02 reset edge setname std".to_string());
+    // workbooks for the sheet / workbook bridge
+    let n = if tier == Tier::Thorough { 600 } else { 60 };
+    for i in 0..n {
+        v.push(format!("c02 reset sgen {} {}", rng.next() % 1_000_000_007, if i % 4 == 3 { "light" } else { "std" }));
     }
     // partly deserialized workbooks (opened lazily, one sheet touched, saved)
     let n = if tier == Tier::Thorough { 400 } else { 40 };
